@@ -26,6 +26,10 @@ def plan(ctx):
         # every sequence of 3 xor/and/not requests over 2 inputs
         for first in all_requests(4, ops=("x", "a", "n")):
             items.append({"kind": "exhaustive3", "first": first, "inputs": 2})
+    # every sequence of 3 xor/and/not requests over 3 inputs whose operands are inputs or earlier results (no constants):
+    # 41580 sequences x cache on/off. (The thorough tier's 2-input version above also takes the constants as operands.)
+    for first in all_requests(["i0", "i1", "i2"], ops=("x", "a", "n")):
+        items.append({"kind": "exhaustive3n", "first": first, "inputs": 3})
     # every sequence of 4 xor/and requests over 3 inputs whose first request is op(i0, i1) and whose operands are
     # inputs or earlier results (quick: distinct operands; thorough: also equal operands), ordered pairs
     for first in (("x", "i0", "i1"), ("a", "i0", "i1")):
@@ -312,6 +316,24 @@ def work(item, drv):
         if batch:
             check_batch(drv, batch, n, st, out)
         out["samples"].append({"kind": kind, "first_request": list(first), "sequences": len(seqs) * 2})
+    elif kind == "exhaustive3n":
+        n = item["inputs"]
+        first = tuple(item["first"])
+        ins = ["i%d" % k for k in range(n)]
+        batch = []
+        count = 0
+        for second in all_requests(ins + ["r0"], ops=("x", "a", "n")):
+            for third in all_requests(ins + ["r0", "r1"], ops=("x", "a", "n")):
+                seq = [first, second, third]
+                count += 1
+                for cache in (True, False):
+                    batch.append((seq, ["r0", "r1", "r2"], cache))
+                if len(batch) >= 400:
+                    check_batch(drv, batch, n, st, out)
+                    batch = []
+        if batch:
+            check_batch(drv, batch, n, st, out)
+        out["samples"].append({"kind": kind, "first_request": list(first), "sequences": count * 2})
     elif kind == "exhaustive4":
         n = item["inputs"]
         first, second = tuple(item["first"]), tuple(item["second"])
@@ -368,7 +390,7 @@ def summarize(ctx, items, results):
                           "by the real CircuitBuilder + build() through the verif_hooks wrapper and the built circuit is compared for all inputs with the literal semantics of the "
                           "same requests, for every returned wire listed as an output (including inputs, constants, repeats; unlisted results are dead). Sequences are batched 200-400 per solver query.",
            "compiled_programs_on_off": programs, "builder_sequences": sequences, "gates_encoded": gates, "work_items": kinds, "solver": st.as_dict(),
-           "bounds": {"exhaustive": "all sequences of <= 2 requests of every kind over 2 inputs, cache on and off (thorough: also all length-3 xor/and/not sequences); all sequences of 4 xor/and requests over 3 inputs that start with op(i0,i1) and take inputs or earlier results as ordered operand pairs (quick: distinct operands, 115k sequences x cache on/off; thorough: equal operands too, 230k x 2)",
+           "bounds": {"exhaustive": "all sequences of <= 2 requests of every kind over 2 inputs, cache on and off (thorough: also all length-3 xor/and/not sequences); all sequences of 3 xor/and/not requests over 3 inputs with inputs or earlier results as operands (41580 x cache on/off); all sequences of 4 xor/and requests over 3 inputs that start with op(i0,i1) and take inputs or earlier results as ordered operand pairs (quick: distinct operands, 115k sequences x cache on/off; thorough: equal operands too, 230k x 2)",
                       "random": "seeded sequences of 3..40 requests over 3 inputs biased to rewrite-rule shapes (operand that is a gate over the other operand, known negations, gates sharing an operand, distributivity shapes with the products / the xor already requested)"},
            "functions_encoded": ["circuit.rs CircuitBuilder::{push_xor,push_and,push_not,push_or,push_eq,push_mux,push_adder,build,remove_unused_gates}", "compile_with_options(optimize_duplicate_gates = true | false)"]}
     return {"violations": viol, "errors": errors, "inconclusive": st.unknown, "inconclusive_limit": max(2, st.queries // 50), "coverage": cov,
